@@ -132,6 +132,18 @@ CLAIMS = {
         "docs/source/theory/misc.rst; iron/lead/neon/marble values transcribed from the cited sources.",
         "DESIGN.md section 3, C12",
     ),
+    "C14": (
+        "partial evaluation of whole runs under different request histories; comparison of per-point normal forms; aliasing checks",
+        "Decides: for a lattice of (observable triple, scheme, TMC, scale variations), the operator (values and errors, every order key) folded "
+        "for each requested (observable, point) is the same normal form across nine histories - alone, reversed, duplicates and repeated Q2 "
+        "values, before/after other structure functions or cross sections that populate the shared caches, subsets, a point whose Nachtmann "
+        "partner is requested first, a point with a different number of active flavours evaluated alone - and across two get_result() calls; a "
+        "history that fails while another succeeds is a violation; no two points of an output, two outputs, or an output and the memoised "
+        "results share an array. NOT decided: bit-level reproducibility of the floating-point quadrature and summation order.",
+        "Trusted: CPython ast; yadsa partial evaluator (dict/list/cache and in-place array semantics modelled on the host interpreter/numpy); "
+        "quad, LeProHQ and eko basis functions are deterministic pure functions.",
+        "DESIGN.md section 3, C14",
+    ),
     "C16": (
         "partial evaluation of the repository's source over the configuration lattice; must-pass-through; probe folding",
         "Decides: over the documented configuration lattice (kind x heavyness x process x scheme/NfFF x PTO, plus scale-variation, "
